@@ -40,6 +40,9 @@ def standins(tier, seed):
                  dict(name='2DPGA', histories=10, steps=30), dict(p=2, q=2, cse=False, histories=8, steps=30)]
     jobs = [{'name': f'history#{i}', 'bound': f'{h} seeded histories x {st} steps per configuration over operators x 3 key sets and their permutations x registered (nested) functions x failing calls; wrapper None / identity; every step compared with a fresh algebra',
              'job': {'kind': 'history', 'module': 'standins.jobs2', 'configs': [c], 'seed': seed * 100 + i}} for i, c in enumerate(cfgs)]
+    jobs.append({'name': 'inplace-history', 'bound': '18 operators x list / ndarray coefficients x seeded patterns per configuration: op(a, b), in-place update of a, op(a, b) compared with a fresh algebra on the current coefficients',
+                 'job': {'kind': 'inplace_history', 'module': 'standins.jobs7', 'seed': seed,
+                         'configs': [dict(p=3, random=3), dict(p=2, q=0, r=1, random=3)] if tier == 'quick' else [dict(p=3, random=10), dict(p=2, q=0, r=1, random=10), dict(p=2, q=1, random=8), dict(p=4, random=4), dict(name='2DPGA', random=6)]}})
     jobs.append({'name': 'typeid', 'bound': 'all ordered key tuples of every d<=2 algebra and all of length<=3 for d=3: generated function names are pairwise distinct',
                  'job': {'kind': 'typeid', 'module': 'standins.jobs2', 'configs': [dict(p=1), dict(p=2), dict(p=3, maxlen=3)]}})
     jobs.append({'name': 'aliasing', 'bound': 'grade-block, full, even and sparse operands x 16 accessors / unary / trivial binary calls per algebra: in-place writes into a result never reach the operand and vice versa',
